@@ -498,6 +498,35 @@ func (c *Ctx) c15LeafStream(n int) {
 func checkC15(c *Ctx) {
 	c.Res.Rule = "random well-formed rules (1-10 comparisons), each rendered canonically and in 6 respelled variants (every alternative spelling from the extracted grammar, optional blanks, newlines after blanks, blanks after commas, redundant parentheses around random sub-rules) and evaluated on 3 objects; non-trivial = distinct (rule, variant) whose text differs from the canonical text"
 	n := c.budget(2000, 120000)
+	// one very long rule (beyond 64 KiB) with and without a newline after one of its blanks: size must not make
+	// permitted white space significant (engine compared with itself; the model is not asked about texts of this size)
+	{
+		var sb strings.Builder
+		nOps := 5200 + c.R.Intn(1500)
+		hit := c.R.Intn(nOps)
+		for i := 0; i < nOps; i++ {
+			if i > 0 {
+				sb.WriteString(" or ")
+			}
+			fmt.Fprintf(&sb, "k%d eq %d", i%5, i)
+		}
+		canon := sb.String()
+		obj := map[string]interface{}{fmt.Sprintf("k%d", hit%5): hit}
+		base := evalFresh(canon, obj)
+		first := strings.Index(canon, " ")
+		last := strings.LastIndex(canon, " ")
+		mid := strings.Index(canon[len(canon)/2:], " ") + len(canon)/2
+		for _, v := range []string{canon[:first+1] + "\n" + canon[first+1:], canon[:last+1] + "\n\n" + canon[last+1:], canon[:mid+1] + "\n" + canon[mid+1:], "(" + canon + ")"} {
+			got := evalFresh(v, obj)
+			c.Res.Evaluations++
+			c.count("huge_rule_respelling")
+			if got.Line() != base.Line() {
+				c.violate(Violation{What: "a respelled variant of a very long rule has a different outcome", Rule: fmt.Sprintf("%d comparisons `k<i mod 5> eq <i>` joined by or, %d bytes, with a newline inserted after the blank at byte %d (or wrapped in parentheses)", nOps, len(v), strings.Index(v, "\n")),
+					RuleHex: "", Object: fmt.Sprintf("%v", obj), Demand: "the outcome of the one-line spelling: " + base.Line(), Go: got.Line() + " " + got.ErrText})
+				break
+			}
+		}
+	}
 	c.c15LeafStream(n * 4)
 	for i := 0; i < n && !c.full(); i++ {
 		t := genTree(c.R, 1+c.R.Intn(10), 3, nil)
